@@ -20,7 +20,9 @@ RULE = ('Generated client generations: each opens 1-3 transports and runs a '
         'ends, binary events '
         'whose attachments never all arrive, frames of the dying transport '
         '(CONNECT, events, binary headers, DISCONNECT) dispatched while its '
-        'disconnect handler is suspended, malformed frames, namespace '
+        'disconnect handler is suspended, a transport that ends (CLOSE + '
+        'more frames) in the middle of a namespace disconnect, malformed '
+        'frames, namespace '
         'disconnects) and then ends every transport by a generated cause; '
         'fault plan: the k-th invocation of a connect / event / disconnect '
         'handler raises. The same generation is repeated 2n times. Oracles: '
@@ -104,6 +106,17 @@ def strategy(tier):
                                    '{"_placeholder":true,"num":1}]',
                                    '61-/a,3[{"_placeholder":true,"num":0}]']),
                                    min_size=1, max_size=3)}),
+        # asyncio: a namespace is being left (client DISCONNECT or
+        # server.disconnect(), its handler suspended) when the transport
+        # ends with one more payload: engine.io CLOSE, then more frames
+        st.fixed_dictionaries({'op': st.just('disc_mid'), 'c': ci,
+                               'how': st.sampled_from(['cdisc', 'sdisc']),
+                               'frames': st.lists(st.sampled_from([
+                                   '0', '0/a,', '2["a",1]', '1', '1/a,',
+                                   '51-["a",{"_placeholder":true,"num":0}]',
+                                   '51-/a,["a",{"_placeholder":true,"num":0}]',
+                                   '61-/a,3[{"_placeholder":true,"num":0}]']),
+                                   min_size=1, max_size=3)}),
         # the application acts on a client of this generation that has
         # already gone (a handler that was suspended meanwhile)
         st.fixed_dictionaries({'op': st.just('late'), 'c': ci,
@@ -158,7 +171,9 @@ def _mk_world(case):
         if case['aio']:
             async def on_disconnect(sid, reason, ns=ns):
                 g = st_.get('gate')
-                if g is not None and not g.done():
+                if g is not None and not g.done() and \
+                        not getattr(g, 'taken', False):
+                    g.taken = True      # (one handler waits, not all)
                     await g
                 if case.get('disc_closes_own'):
                     await sio.close_room(sid, namespace=ns)
@@ -251,13 +266,16 @@ def _generation(case, w, st_):
                                          reason=reasons[0]))
             loop.run_until_idle()
             parked = not task.done()
+            if not parked and not st_['gate'].done():
+                st_['gate'].set_result(None)
             P = w.h.eio_packet
             for f in op['frames']:
                 ft = loop.spawn(sock.receive(P.Packet(P.MESSAGE, f)))
                 loop.run_until_idle()
                 if ft.done():
                     ft.exception()      # engine.io would contain it
-            st_['gate'].set_result(None)
+            if not st_['gate'].done():
+                st_['gate'].set_result(None)
             loop.run_until_idle()
             st_['gate'] = None
             if not task.done():
@@ -306,6 +324,37 @@ def _generation(case, w, st_):
             continue
         ci = lv[op['c'] % len(lv)]
         c = w.clients[ci]
+        if k == 'disc_mid':
+            if not case['aio'] or not w.t_alive[c['t']]:
+                continue
+            loop = w.h.loop
+            P = w.h.eio_packet
+            sock = w.h.eio.sockets[w.t[c['t']]]
+            st_['gate'] = loop.create_future()
+            if op['how'] == 'cdisc':
+                fr = wire.frames(wire.DISCONNECT, c['ns'])
+                task = loop.spawn(sock.receive(P.Packet(P.MESSAGE, fr[0])))
+            else:
+                task = loop.spawn(sio.disconnect(c['sid'],
+                                                 namespace=c['ns']))
+            loop.run_until_idle()
+            parked = not task.done()
+            if not parked:
+                st_['gate'].set_result(None)
+            w.close_then(c['t'], op['frames'])
+            if parked:
+                st_['gate'].set_result(None)
+            loop.run_until_idle()
+            st_['gate'] = None
+            if not task.done():
+                raise Violation('namespace-disconnect-never-finishes', '')
+            task.exception()
+            w.h.swallowed[:] = []
+            if parked:
+                flags.add('transport_ends_during_namespace_disconnect')
+            flags.add('frames_after_close')
+            w.h.settle()
+            continue
         if k == 'group_cb_death':
             if not case['aio']:
                 continue
